@@ -12,6 +12,7 @@ mod g_mp;
 mod g_q;
 mod g_rf;
 mod g_se;
+mod g_sf;
 mod g_ss;
 mod g_st;
 #[cfg(feature = "devices")]
@@ -33,6 +34,7 @@ fn dispatch(toks: &[&str], out: &mut Vec<String>) -> R<()> {
         Some("k") => g_k::run(toks, out),
         Some("mp") => g_mp::run(toks, out),
         Some("se") => g_se::run(toks, out),
+        Some("sf") => g_sf::run(toks, out),
         // Without rrtk's `devices` feature these two fall through to NOIMPL.
         #[cfg(feature = "devices")]
         Some("dv") => g_dv::run(toks, out),
